@@ -503,7 +503,7 @@ pub fn implr_batch(ctx: &mut Ctx, dir: &Path, units: &[RUnit], jobs: &[(usize, u
     }
     let bdir = dir.join("rbuild");
     let _ = std::fs::remove_dir_all(&bdir);
-    let built = match implr::build(&env, &bdir, &us) {
+    let built = match implr::build(&env, &bdir, &us, "") {
         Ok(b) => b,
         Err(e) => {
             ctx.machinery(format!("implr build: {}", e));
